@@ -552,3 +552,92 @@ Proof. split; [repeat constructor|split; vm_compute; reflexivity]. Qed.
 
 Print Assumptions C10_gather_spec.
 Print Assumptions C10_gather_index_value.
+
+(* ====================================================================================== *)
+(* Reshape, for values of any type (graphs.rs:2308): a value that in flattened form contains as
+   many arrays and scalars as the new type is rebuilt with the tree structure of the new type and
+   exactly the same leaves in the same order; each leaf keeps its flattened (row-major) elements,
+   which is numpy.reshape's C order: an element keeps its row-major number
+   (C10_reshape_array_order). *)
+From CC Require Import Proofs.EvalSpecStruct.
+
+Theorem C10_reshape_spec : forall new_t t0 t a,
+  length (flatten_value a) = leaf_count new_t ->
+  exists v, eval_node (OReshape new_t) [t0] t [a] = Ok v /\
+            flatten_value v = flatten_value a /\ shaped v new_t.
+Proof. exact reshape_spec. Qed.
+Theorem C10_reshape_array_order : forall old_sh new_sh st' t0 t es,
+  eval_node (OReshape (TArray new_sh st')) [t0] t [VArr es] = Ok (VArr es) /\
+  forall idx idx', flat_pos idx new_sh = flat_pos idx' old_sh -> get es new_sh idx = get es old_sh idx'.
+Proof. intros. split; [reflexivity|]. intros idx idx' H. unfold get. now rewrite H. Qed.
+
+(* Zip (graphs.rs:2913): vectors of the same length n give the vector of the n tuples of their
+   i-th entries. *)
+Theorem C10_zip_spec : forall dts t (ls : list (list value)) n,
+  ls <> [] -> Forall (fun l => length l = n) ls ->
+  eval_node OZip dts t (map VTup ls)
+  = Ok (VTup (map (fun i => VTup (map (fun l => nth i l (VArr [])) ls)) (seq 0 n))).
+Proof. exact zip_spec. Qed.
+
+(* Repeat: a vector of n copies *)
+Theorem C10_repeat_spec : forall n dts t v,
+  exists l, eval_node (ORepeat n) dts t [v] = Ok (VTup l) /\ length l = Z.to_nat n /\
+            forall i, (i < Z.to_nat n)%nat -> nth i l (VArr []) = v.
+Proof. exact repeat_spec. Qed.
+
+(* ArrayToVector (graphs.rs:3062): an array of shape d :: rest becomes the vector of its d
+   sub-arrays a[x] of shape rest (scalars when rest = []); VectorToArray (graphs.rs:3095) is the
+   converse (numpy.stack of equal-shape arrays); each is the inverse of the other. *)
+Theorem C10_array_to_vector_spec : forall d rest st t es,
+  0 < d -> valid_shape rest -> length es = Z.to_nat (prod_list (d :: rest)) ->
+  exists cs, eval_node OArrayToVector [TArray (d :: rest) st] t [VArr es] = Ok (VTup (map VArr cs)) /\
+    length cs = Z.to_nat d /\ concat cs = es /\
+    forall x, 0 <= x < d ->
+      length (nth (Z.to_nat x) cs []) = Z.to_nat (prod_list rest) /\
+      forall idx, in_shape idx rest ->
+        get (nth (Z.to_nat x) cs []) rest idx = get es (d :: rest) (x :: idx).
+Proof. exact array_to_vector_spec. Qed.
+Theorem C10_vector_to_array_spec : forall t0 t rest cs,
+  valid_shape rest -> Forall (fun c => length c = Z.to_nat (prod_list rest)) cs ->
+  eval_node OVectorToArray [t0] t [VTup (map VArr cs)] = Ok (VArr (concat cs)) /\
+  length (concat cs) = Z.to_nat (prod_list (Z.of_nat (length cs) :: rest)) /\
+  forall x idx, 0 <= x < Z.of_nat (length cs) -> in_shape idx rest ->
+    get (concat cs) (Z.of_nat (length cs) :: rest) (x :: idx) = get (nth (Z.to_nat x) cs []) rest idx.
+Proof. exact vector_to_array_spec. Qed.
+Theorem C10_array_vector_round_trip : forall d rest st t1 t2 es,
+  0 < d -> valid_shape rest -> length es = Z.to_nat (prod_list (d :: rest)) ->
+  (let* v := eval_node OArrayToVector [TArray (d :: rest) st] t1 [VArr es] in
+   eval_node OVectorToArray [t1] t2 [v]) = Ok (VArr es).
+Proof. exact array_vector_round_trip. Qed.
+Theorem C10_vector_array_round_trip : forall t0 t1 t2 st rest cs,
+  valid_shape rest -> cs <> [] -> Forall (fun c => length c = Z.to_nat (prod_list rest)) cs ->
+  (let* a := eval_node OVectorToArray [t0] t1 [VTup (map VArr cs)] in
+   eval_node OArrayToVector [TArray (Z.of_nat (length cs) :: rest) st] t2 [a]) = Ok (VTup (map VArr cs)).
+Proof. exact vector_array_round_trip. Qed.
+
+Example C10_example_reshape :
+  (* a tuple ([2,2], ([4], [1,4])) reshaped to a vector of three [2,2] arrays *)
+  let a := VTup [VArr [1; 2; 3; 4]; VTup [VArr [5; 6; 7; 8]; VArr [9; 10; 11; 2 ^ 100]]] in
+  length (flatten_value a) = leaf_count (TVector 3 (TArray [2; 2] U128)) /\
+  eval_node (OReshape (TVector 3 (TArray [2; 2] U128))) [TTuple []] (TTuple []) [a]
+  = Ok (VTup [VArr [1; 2; 3; 4]; VArr [5; 6; 7; 8]; VArr [9; 10; 11; 2 ^ 100]]).
+Proof. split; vm_compute; reflexivity. Qed.
+Example C10_example_zip :
+  eval_node OZip [] (TTuple []) [VTup [VArr [1]; VArr [2]]; VTup [VArr [3; 4]; VArr [5; 6]]]
+  = Ok (VTup [VTup [VArr [1]; VArr [3; 4]]; VTup [VArr [2]; VArr [5; 6]]]).
+Proof. reflexivity. Qed.
+Example C10_example_array_vector :
+  eval_node OArrayToVector [TArray [2; 3] U128] (TTuple []) [VArr [1; 2; 3; 4; 5; 2 ^ 100]]
+  = Ok (VTup [VArr [1; 2; 3]; VArr [4; 5; 2 ^ 100]]) /\
+  eval_node OVectorToArray [TTuple []] (TTuple []) [VTup [VArr [1; 2; 3]; VArr [4; 5; 2 ^ 100]]]
+  = Ok (VArr [1; 2; 3; 4; 5; 2 ^ 100]).
+Proof. split; vm_compute; reflexivity. Qed.
+
+Print Assumptions C10_reshape_spec.
+Print Assumptions C10_reshape_array_order.
+Print Assumptions C10_zip_spec.
+Print Assumptions C10_repeat_spec.
+Print Assumptions C10_array_to_vector_spec.
+Print Assumptions C10_vector_to_array_spec.
+Print Assumptions C10_array_vector_round_trip.
+Print Assumptions C10_vector_array_round_trip.
